@@ -16,7 +16,16 @@ ok, log = m.coq_build()
 print(log[-3000:])
 if not ok:
     sys.exit(1)
-ok, log = m.go_build()
-print(log[-3000:])
-sys.exit(0 if ok else 1)
+allok = True
+ok, log, _ = m.go_build('DEC')
+print('DEC harness build', 'ok' if ok else 'FAILED')
+allok = allok and ok
+for prop in sorted(m.PROPS):
+    if m.PROPS[prop].get("not_applicable"):
+        continue
+    ok, log, _ = m.go_build(prop)
+    print(prop, "harness build", "ok" if ok else "FAILED")
+    if not ok:
+        print(log[-3000:]); allok = False
+sys.exit(0 if allok else 1)
 PY
